@@ -465,6 +465,63 @@ func runC05(c *Ctx) {
 		}
 	}
 
+	// R3b: the hand-off block is always laid out. Every function of package ovmf that calls a hand-off block builder
+	// (the parser's driver) reaches each of its possibly-successful returns only through that call: no configuration
+	// (an empty bank list, a launch mode) returns the region list with the TD hand-off section's buffer left unwritten.
+	nDrivers := 0
+	isBuilder := map[*ssa.Function]bool{}
+	for _, bf := range builders {
+		isBuilder[bf] = true
+	}
+	for _, f := range c.P.RepoFunctions() {
+		if load.RelPkg(f) != "ovmf" || c.isTestFunc(f) || f.Blocks == nil || isBuilder[f] {
+			continue
+		}
+		bcalls := callsIn(f, func(call ssa.CallInstruction) bool { return isBuilder[call.Common().StaticCallee()] })
+		if len(bcalls) == 0 {
+			continue
+		}
+		ei := errIndex(f.Signature)
+		if ei < 0 {
+			continue
+		}
+		nDrivers++
+		ok, at := true, f.Pos()
+		for _, b := range f.Blocks {
+			ret, isRet := b.Instrs[len(b.Instrs)-1].(*ssa.Return)
+			if !isRet {
+				continue
+			}
+			ev := ret.Results[ei]
+			// a refusal: an error made here, or one found non-nil
+			if call, isCall := ev.(*ssa.Call); isCall {
+				if g := call.Call.StaticCallee(); g != nil && (g.String() == "fmt.Errorf" || g.String() == "errors.New") {
+					continue
+				}
+			}
+			nonNil := false
+			for _, cf := range dominatingConds(b) {
+				if bo, isB := cf.Cond.(*ssa.BinOp); isB && isNilK(bo.Y) && bo.X == ev && (bo.Op == token.NEQ) == cf.Val {
+					nonNil = true
+				}
+			}
+			if nonNil {
+				continue
+			}
+			through := false
+			for _, bc := range bcalls {
+				if bc.Block().Dominates(b) {
+					through = true
+				}
+			}
+			if !through {
+				ok, at = false, ret.Pos()
+			}
+		}
+		c.S.Check(ok, "R3", load.FuncName(f)+":hand-off block always laid out", c.pos(at), "every possibly-successful return follows the call of the hand-off block builder", "the parser can return its region list without having called the hand-off block builder: the TD hand-off section is measured as whatever its buffer held (zero pages) instead of the generated block")
+	}
+	c.S.Floor("R3", "callers of the hand-off block builder in package ovmf", 1, nDrivers)
+
 	// ---------------- R4 table agreement ----------------
 	secType := func(v ssa.Value) bool {
 		return sl.Derives(v, func(x ssa.Value) bool {
